@@ -348,8 +348,9 @@ PClose(s) ==
   /\ s \in piped /\ pOpen[s]
   /\ pOpen' = [pOpen EXCEPT ![s] = FALSE]
   /\ noProg' = 0
-  \* closing stdin inside a call before all input was handed over truncates the child's input
-  /\ viol' = viol \cup V(s = "in" /\ inCall => inAcc = input, "C02_in_early_close")
+  \* closing stdin inside a call before all input was handed over truncates the child's input (unless the child
+  \* has already closed its end: then nothing more could have been delivered)
+  /\ viol' = viol \cup V(s = "in" /\ inCall /\ cOpen["in"] => inAcc = input, "C02_in_early_close")
   /\ UNCHANGED <<piped, cap, k, short, input, flood, buf, cOpen, cPend, cAlive, now, inCall, limit, dl, sawEof,
                  written, delivered, inAcc, cRecv, cEof, pwDone, after, sanity>>
 
